@@ -6,7 +6,8 @@ From QV Require Import Lib.Corr Sys.Trace.
 Import ListNotations.
 Open Scope Z_scope.
 
-Record st := { nclient_out : Z; zero_rtt : bool; closer : Z; ok_end : bool; closed : list key; slow_reader : bool }.
+Record st := { nclient_out : Z; zero_rtt : bool; closer : Z; ok_end : bool; closed : list key; slow_reader : bool;
+               nserver_out : Z (* scenario key 908: the server application must have been able to open all its streams *) }.
 
 Definition step (s : st) (r : list Z) : option st :=
   if tag r =? 11 then None
@@ -26,7 +27,7 @@ Definition step (s : st) (r : list Z) : option st :=
     else Some s
   else if (tag r =? 3) && (fld r 4 =? 11) then
     Some {| nclient_out := nclient_out s; zero_rtt := zero_rtt s; closer := closer s; ok_end := ok_end s;
-            closed := rkey r :: closed s; slow_reader := slow_reader s |}
+            closed := rkey r :: closed s; slow_reader := slow_reader s; nserver_out := nserver_out s |}
   else if tag r =? 14 then
     (* summary: [14,t,ep,ch,idx,connected,lost,closed_local,n_out,done_out,n_in,done_in,zombie] *)
     if 255 <=? fld r 4 then Some s else
@@ -37,7 +38,7 @@ Definition step (s : st) (r : list Z) : option st :=
     let done_out := fld r 9 in
     let n_in := fld r 10 in
     let done_in := fld r 11 in
-    let want := if (rep r =? 0) && negb warm then nclient_out s else 0 in
+    let want := if (rep r =? 0) && negb warm then nclient_out s else nserver_out s in
     (* the side that closes (the client: CLOSER = 0) has seen every one of its streams finished and
        acknowledged; the other side has read everything to the end (its own FINs may still have been
        awaiting their acknowledgement when the peer's close arrived) *)
@@ -47,13 +48,14 @@ Definition step (s : st) (r : list Z) : option st :=
     (* the run ended because nothing was left to do (1); running into the time limit (2) is
        accepted only because every workload connection has already been found complete by the
        summary records above (a half-open attempt without idle timeout may keep probing) *)
-    if (fld r 2 =? 1) || (fld r 2 =? 2) then Some {| nclient_out := nclient_out s; zero_rtt := zero_rtt s; closer := closer s; ok_end := true; closed := closed s; slow_reader := slow_reader s |}
+    if (fld r 2 =? 1) || (fld r 2 =? 2) then Some {| nclient_out := nclient_out s; zero_rtt := zero_rtt s; closer := closer s; ok_end := true; closed := closed s; slow_reader := slow_reader s; nserver_out := nserver_out s |}
     else None
   else Some s.
 
 Definition monitor (i : ops) (o : outs) : option Z :=
   match run_from step 0 {| nclient_out := if param i 80 0 =? 1 then 0 else param i 9 1 + param i 10 0; zero_rtt := 0 <? param i 44 0;
-                           closer := param i 19 0; ok_end := false; closed := []; slow_reader := 0 <? param i 75 0 |} o with
+                           closer := param i 19 0; ok_end := false; closed := []; slow_reader := 0 <? param i 75 0;
+                           nserver_out := if param i 908 0 =? 1 then param i 53 0 else 0 |} o with
   | (_, Some k) => Some k
   | (s, None) => if ok_end s then None else Some (-1 + Z.of_nat (length o))
   end.
